@@ -78,8 +78,10 @@ impl<T: Copy> Block for VectorSink<T> {
         if n > 0 {
             storage.0.extend(&i.slice()[..n]);
             storage.1.extend(tags);
-            i.consume(ilen);
         }
+        // Also when the storage is full: discard, like NullSink. Leaving the
+        // samples in the stream makes the wait below return at once, forever.
+        i.consume(ilen);
         Ok(BlockRet::WaitForStream(&self.src, 1))
     }
 }
